@@ -43,6 +43,8 @@ Violations(line) ==
      \* signatures, through the interface the caller supplied
   \cup R("revshape", Has(in, "revvec") /\ o.revCalled /\
                         (o.revChainLen # Len(in.revvec.vec) \/ o.revZeroTime # (in.revvec.scheme = "x509") \/ o.revIface # in.revvec.iface))
+     \* C06: the time-stamping authority's chain is checked for revocation as of the moment of verification (no signing time)
+  \cup R("tsarevshape", o.tsaRevCalled /\ ~o.tsaRevZeroTime)
      \* C05: class of the reported revocation result and the certificate it names
   \cup R("revclass", Has(in, "revvec") /\ o.revClass # "none" /\
                         LET rv == in.revvec IN
